@@ -64,6 +64,23 @@ def bigSpec (op : String) (args : List String) : Option String :=
   | "onehot", [n] => do let k ← n.toNat?; pure (toHex (2 ^ k))
   | _, _ => none
 
+/-- C07: the model on FP64/FP32 bit patterns (NaN results print as `nan`) -/
+def natOp (wide : Bool) (op : String) (a b : Nat) : Option String :=
+  let F := if wide then FP64 else FP32
+  let x := fromBits F a
+  let y := fromBits F b
+  let enc (v : Flt) : String :=
+    let w := if wide then v.asF64 else v.asF32
+    if (v.cast F).isNan then "nan" else toString w
+  match op with
+  | "add" => some (enc (x.add y)) | "sub" => some (enc (x.sub y))
+  | "mul" => some (enc (x.mul y)) | "div" => some (enc (x.div y))
+  | "rem" => (x.remFuel 100000 y).map enc
+  | "trunc" => some (enc x.trunc) | "round" => some (enc x.round)
+  | "tof32" => some (if (x.cast FP32).isNan then "nan" else toString x.asF32)
+  | "cmp" => some (b01 (x.lt y) ++ b01 (x.le y) ++ b01 (x.gt y) ++ b01 (x.ge y) ++ b01 (x.beq y))
+  | _ => none
+
 def bad : String := "bad-op\t-\t-"
 
 /-- tag of a rounding result: c=special, o=overflowed, z=became zero, s=subnormal,
@@ -145,6 +162,14 @@ def runProg (inss : List String) : String :=
 def handle (toks : List String) : String :=
   match toks with
   | "prog" :: inss => runProg inss
+  | ["nat64", op, a, b] =>
+    (match a.toNat?, b.toNat? with
+     | some a, some b => (match natOp true op a b with | some r => out r "-" op | none => bad)
+     | _, _ => bad)
+  | ["nat32", op, a, b] =>
+    (match a.toNat?, b.toNat? with
+     | some a, some b => (match natOp false op a b with | some r => out r "-" op | none => bad)
+     | _, _ => bad)
   | "big" :: op :: args =>
     (match bigSpec op args with
      | some r => out r r op
